@@ -261,3 +261,55 @@ def returned_string_root(prog, body):
     if len(roots) != 1:
         raise AnchorMissing("%s: several returned strings" % body.key)
     return next(iter(roots))
+
+
+def capture_pks(cbody, types=None):
+    """{capture name: place key} for the captures of a closure body."""
+    from ..sym import pk_of
+    out = {}
+    for d in cbody.raw.get("debug", []):
+        pl = d.get("place")
+        if pl is None or pl["l"] != 1:
+            continue
+        n = d["name"]
+        nn = n[len("_ref__"):] if n.startswith("_ref__") else n
+        if types is None or pl["ty"] in types:
+            out[nn] = sym_of(cbody).resolve_pk(pk_of(pl))
+    return out
+
+
+class RetPath:
+    def __init__(self, path, facts, ret, nxt, events, view):
+        self.path, self.facts, self.ret, self.next, self.events, self.view = path, facts, ret, nxt, events, view
+
+
+def closure_model(prog, cbody, state_types=("usize", "bool")):
+    """Per-invocation model of a closure: captured state, loops with their
+    transition systems, and every acyclic entry-to-return path with its
+    condition, returned value and the captures' values at return."""
+    from ..paths import fn_paths, contradictory
+    from ..engines.schemas import closure_env
+    key = (id(prog), "closure_model", cbody.key, state_types)
+    if key in _CACHE:
+        return _CACHE[key][1]
+    m = Model(body=cbody)
+    parent, env = closure_env(prog, cbody)
+    m.parent, m.env = parent, env or {}
+    m.caps = capture_pks(cbody)
+    m.state = {n: pk for n, pk in capture_pks(cbody, state_types).items()}
+    roots = list(m.caps.values())
+    m.loops = []
+    for lm in loop_models(prog, cbody):
+        trans = loop_system(prog, cbody, lm, list(m.state.values()), roots)
+        m.loops.append((lm, trans))
+    m.returns = []
+    for path in fn_paths(cbody):
+        pv = PathView(prog, cbody, path, keep_headers=True)
+        facts = pv.facts()
+        if contradictory(facts):
+            continue
+        ret = pv.value_before_term((0, ()), path[-1])
+        nxt = {n: pv.value_before_term(pk, path[-1]) for n, pk in m.state.items()}
+        m.returns.append(RetPath(path, facts, ret, nxt, pv.events(roots), pv))
+    _CACHE[key] = ("ok", m)
+    return m
